@@ -477,12 +477,11 @@ impl BRC20ProgEngine {
 
             core::mem::swap(&mut *db, evm.ctx().db_mut());
 
-            let cumulative_gas_used = self
-                .last_block_info
-                .read()
-                .gas_used
+            // Read once, two guards of the same lock in one expression can deadlock with a writer
+            let block_gas_used = self.last_block_info.read().gas_used;
+            let cumulative_gas_used = block_gas_used
                 .checked_add(output.as_ref().map(|o| o.gas_used()).unwrap_or(0))
-                .unwrap_or(self.last_block_info.read().gas_used);
+                .unwrap_or(block_gas_used);
 
             let traces: TraceED = evm
                 .inspector()
@@ -932,12 +931,11 @@ impl BRC20ProgEngine {
         block_hash: B256,
         is_full: bool,
     ) -> Result<Option<BlockResponseED>, Box<dyn Error>> {
-        self.db.read_fn(|db| {
-            db.get_block_number(block_hash)?
-                .map_or(Ok(None), |block_number| {
-                    self.get_block_by_number(block_number.into(), is_full)
-                })
-        })
+        // Release the database lock before get_block_by_number takes it again
+        let Some(block_number) = self.db.read_fn(|db| db.get_block_number(block_hash))? else {
+            return Ok(None);
+        };
+        self.get_block_by_number(block_number.into(), is_full)
     }
 
     pub fn get_contract_bytecode(
